@@ -73,6 +73,11 @@ def run_one(sid, only_props=None):
 
 
 def main():
+    skip = [a.split("=")[1].split(",") for a in sys.argv[1:] if a.startswith("--skip=")]
+    global PROPS
+    if skip:
+        PROPS = [p for p in PROPS if p not in skip[0]]
+    sys.argv = [a for a in sys.argv if not a.startswith("--skip=")]
     ids = sys.argv[1:] or sorted(os.listdir(os.path.join(VERIF, "seeded")))
     ids = [i for i in ids if os.path.exists(os.path.join(VERIF, "seeded", i, "patch.diff"))]
     with cf.ThreadPoolExecutor(max_workers=3) as ex:
